@@ -527,6 +527,15 @@ impl Gen {
         };
         let mut st = Step::new(&actor, op);
         st.funds = native_funds(r, &actor, &st.op);
+        if r.w.cfg.coll.is_native() && matches!(st.op, Op::Close { .. }) && rng.chance(1, 5) {
+            // something other than the closing fees: nothing, one unit less, one unit more, twice as much
+            st.funds = match rng.below(4) {
+                0 => 0,
+                1 => st.funds.saturating_sub(1),
+                2 => st.funds + 1,
+                _ => st.funds * 2,
+            };
+        }
         if r.w.cfg.coll.is_native() && matches!(st.op, Op::Deposit { .. }) && rng.chance(1, 5) {
             // attach something other than the declared amount
             st.funds = match rng.below(3) {
@@ -703,7 +712,7 @@ impl Gen {
         let pos = r.obs.position(v, "whale").cloned().filter(|p| p.size != 0);
         if pos.is_some() && rng.chance(1, 4) {
             let mut st = Step::new("whale", Op::Close { vamm: v, limit: 0 });
-            st.funds = 0;
+            st.funds = native_funds(r, "whale", &st.op);
             return st;
         }
         let up = rng.chance(1, 2);
@@ -1043,7 +1052,7 @@ impl Gen {
 
     pub fn next(&mut self, r: &mut Runner, rng: &mut Rng) -> Step {
         if let Some(mut s) = self.plan.pop() {
-            if s.funds == 0 && matches!(s.op, Op::Open { .. }) {
+            if s.funds == 0 && matches!(s.op, Op::Open { .. } | Op::Close { .. }) {
                 let a = s.actor.clone();
                 s.funds = native_funds(r, &a, &s.op);
             }
@@ -1332,6 +1341,45 @@ pub fn native_funds(r: &mut Runner, actor: &str, op: &Op) -> U {
                     }
                 }
             }
+            cands.dedup();
+            if cands.len() == 1 {
+                return cands[0];
+            }
+            let a = actor.to_string();
+            let o = op.clone();
+            let first = cands[0];
+            let found = r.fork(|w| {
+                let snap = w.snapshot();
+                for c in cands.iter() {
+                    let out = w.exec(&a, &o, *c, None);
+                    w.restore(&snap);
+                    if out.ok {
+                        return Some(*c);
+                    }
+                }
+                None
+            });
+            found.unwrap_or(first)
+        }
+        Op::Close { vamm, .. } => {
+            // the closing fees, which a cw20 deployment pulls from the caller: the vAMM's fee on the open notional for a
+            // whole close, on the traded notional for a partial close (candidates are tried in a fork)
+            let vo = match r.obs.vamms.get(*vamm) {
+                Some(v) => v.clone(),
+                None => return 0,
+            };
+            let p = match r.obs.position(*vamm, actor).cloned().filter(|p| p.size != 0) {
+                Some(p) => p,
+                None => return 0,
+            };
+            let fees_of = |n: U| fee(n, vo.toll, d).unwrap_or(0) + fee(n, vo.spread, d).unwrap_or(0);
+            let mut cands: Vec<U> = vec![fees_of(p.notional)];
+            let pr = r.obs.eng.as_ref().map(|e| e.partial).unwrap_or(0);
+            let part = mul_div(p.size.unsigned_abs(), pr, d).unwrap_or(0);
+            if let Some(qp) = curve_output(p.dir, part, vo.q, vo.b, vo.decimals.max(1)) {
+                cands.push(fees_of(qp));
+            }
+            cands.push(0);
             cands.dedup();
             if cands.len() == 1 {
                 return cands[0];
